@@ -898,20 +898,34 @@ Proof.
   rewrite map_length. apply digits_be_length.
 Qed.
 
-Lemma gnutar_fn_length : forall v s mx,
-  length (snd (gnutar_format_number v s mx)) = if (v <? zpow 8 s)%Z then s else mx.
+Lemma gnutar_format_256_length_le : forall v s, length (snd (gnutar_format_256 v s)) <= s.
 Proof.
-  intros. unfold gnutar_format_number. destruct (v <? zpow 8 s)%Z.
-  - apply gnutar_format_octal_length.
-  - apply format_256_length.
+  intros. unfold gnutar_format_256.
+  match goal with |- context [if ?c then _ else _] => destruct c end; cbn [snd length]; [lia|].
+  rewrite format_256_length. lia.
 Qed.
 
 Lemma gnutar_fn_length_le : forall v s mx, s <= mx -> length (snd (gnutar_format_number v s mx)) <= mx.
-Proof. intros. rewrite gnutar_fn_length. destruct (v <? zpow 8 s)%Z; lia. Qed.
+Proof.
+  intros. unfold gnutar_format_number. destruct ((0 <=? v)%Z && (v <? zpow 8 s)%Z).
+  - rewrite gnutar_format_octal_length. assumption.
+  - apply gnutar_format_256_length_le.
+Qed.
+
+Lemma gnutar_fn_length_ok : forall v s mx, fst (gnutar_format_number v s mx) = 0%Z ->
+  length (snd (gnutar_format_number v s mx)) = if ((0 <=? v)%Z && (v <? zpow 8 s)%Z) then s else mx.
+Proof.
+  intros v s mx. unfold gnutar_format_number. destruct ((0 <=? v)%Z && (v <? zpow 8 s)%Z).
+  - intros _. apply gnutar_format_octal_length.
+  - unfold gnutar_format_256.
+    match goal with |- context [if ?c then _ else _] => destruct c end; cbn [fst snd]; [intros H; exfalso; lia|].
+    intros _. apply format_256_length.
+Qed.
 
 Ltac leafg :=
   unfold inb, away; cbn [fst snd length];
   rewrite ?gnutar_format_octal_length, ?firstn_length;
+  cbn [length];
   repeat match goal with
   | |- context [length (snd (gnutar_format_number ?v ?s ?mx))] =>
       let H := fresh "Hl" in pose proof (gnutar_fn_length_le v s mx) as H;
@@ -919,7 +933,7 @@ Ltac leafg :=
   end;
   unfold GNUTAR_name_offset, GNUTAR_name_size, GNUTAR_mode_offset, GNUTAR_mode_size, GNUTAR_uid_offset, GNUTAR_uid_size,
     GNUTAR_uid_max_size, GNUTAR_gid_offset, GNUTAR_gid_size, GNUTAR_gid_max_size, GNUTAR_size_offset, GNUTAR_size_size,
-    GNUTAR_size_max_size, GNUTAR_mtime_offset, GNUTAR_mtime_size,
+    GNUTAR_size_max_size, GNUTAR_mtime_offset, GNUTAR_mtime_size, GNUTAR_mtime_max_size,
     GNUTAR_checksum_offset, GNUTAR_checksum_size, GNUTAR_typeflag_offset, GNUTAR_linkname_offset, GNUTAR_linkname_size,
     GNUTAR_uname_offset, GNUTAR_uname_size, GNUTAR_gname_offset, GNUTAR_gname_size, GNUTAR_rdevmajor_offset,
     GNUTAR_rdevmajor_size, GNUTAR_rdevminor_offset, GNUTAR_rdevminor_size in *;
@@ -951,6 +965,12 @@ Qed.
 Lemma stops_nul : stops 8 [0]%Z.
 Proof. cbn. lia. Qed.
 
+Lemma pick_failed_ge : forall c ret, (ST_WARN <= pick c ST_FAILED ret)%Z -> c = false /\ (ST_WARN <= ret)%Z.
+Proof.
+  intros c ret H. unfold pick in H. destruct c; [|auto].
+  unfold ST_WARN, ST_FAILED, ARCHIVE_WARN, ARCHIVE_FAILED in H. lia.
+Qed.
+
 Section GnuOk.
 Variables name lk un gn : list Z.
 Variable e : entry.
@@ -966,7 +986,7 @@ Definition g_mode : wr := (GNUTAR_mode_offset, snd (gnutar_format_octal (Z.land 
 Definition g_uid : wr := (GNUTAR_uid_offset, snd (gnutar_format_number (e_uid e) GNUTAR_uid_size GNUTAR_uid_max_size)).
 Definition g_gid : wr := (GNUTAR_gid_offset, snd (gnutar_format_number (e_gid e) GNUTAR_gid_size GNUTAR_gid_max_size)).
 Definition g_size : wr := (GNUTAR_size_offset, snd (gnutar_format_number (size_of e) GNUTAR_size_size GNUTAR_size_max_size)).
-Definition g_mtime : wr := (GNUTAR_mtime_offset, snd (gnutar_format_octal (e_mtime e) GNUTAR_mtime_size)).
+Definition g_mtime : wr := (GNUTAR_mtime_offset, snd (gnutar_format_number (e_mtime e) GNUTAR_mtime_size GNUTAR_mtime_max_size)).
 Definition g_tail : list wr :=
   wr_if (is_dev e) GNUTAR_rdevmajor_offset (snd (gnutar_format_octal (dev_major (e_rdev e)) GNUTAR_rdevmajor_size))
   ++ wr_if (is_dev e) GNUTAR_rdevminor_offset (snd (gnutar_format_octal (dev_minor (e_rdev e)) GNUTAR_rdevminor_size))
@@ -980,6 +1000,37 @@ Proof.
 Qed.
 
 Ltac unfold_g := unfold gnu_pre_num, g_tail, g_mode, g_uid, g_gid, g_size, g_mtime in *.
+
+(* a header that is written at all (status OK or WARN) has every numeric formatter result zero *)
+Record gnutar_ok_facts : Prop := {
+  gf_uid : fst (gnutar_format_number (e_uid e) GNUTAR_uid_size GNUTAR_uid_max_size) = 0%Z;
+  gf_gid : fst (gnutar_format_number (e_gid e) GNUTAR_gid_size GNUTAR_gid_max_size) = 0%Z;
+  gf_size : fst (gnutar_format_number (size_of e) GNUTAR_size_size GNUTAR_size_max_size) = 0%Z;
+  gf_mtime : fst (gnutar_format_number (e_mtime e) GNUTAR_mtime_size GNUTAR_mtime_max_size) = 0%Z
+}.
+
+Lemma gnutar_ok : (ST_WARN <= fst (gnutar_header name lk un gn e t))%Z -> gnutar_ok_facts.
+Proof.
+  intros H. unfold gnutar_header in H. cbn [fst] in H. unfold gnutar_fields in H. cbv zeta in H. cbn [fst] in H.
+  repeat match type of H with
+  | (ST_WARN <= pick _ ST_FAILED _)%Z => apply pick_failed_ge in H; let C := fresh "C" in destruct H as [C H]
+  end.
+  constructor; apply negb_eqb0; assumption.
+Qed.
+
+(* status exactly OK: the user and group names fit their fields *)
+Lemma gnutar_ok_names : fst (gnutar_header name lk un gn e t) = 0%Z ->
+  length un <= GNUTAR_uname_size /\ length gn <= GNUTAR_gname_size.
+Proof.
+  intros H. unfold gnutar_header in H. cbn [fst] in H. unfold gnutar_fields in H. cbv zeta in H. cbn [fst] in H.
+  repeat match type of H with
+  | pick _ ST_FAILED _ = 0%Z => apply (pick_zero _ _ _ ST_FAILED_nz) in H; let C := fresh "C" in destruct H as [C H]
+  end.
+  assert (Hw : ST_WARN <> 0%Z) by (unfold ST_WARN, ARCHIVE_WARN; lia).
+  apply (pick_zero _ _ _ Hw) in H. destruct H as [Cg H].
+  apply (pick_zero _ _ _ Hw) in H. destruct H as [Cu _].
+  apply Nat.ltb_ge in Cg. apply Nat.ltb_ge in Cu. split; assumption.
+Qed.
 
 (* a field written by gnutar's format_number into a window of w bytes: the bytes, then what is left of the template *)
 Lemma gnutar_window : forall o v s mx ws1 ws2 k,
@@ -997,12 +1048,13 @@ Proof.
   - apply ck_ok_gnu.
 Qed.
 
-(* uid and gid: exact on [0, 2^62) whatever the status *)
-Theorem gnutar_uid_exact : (0 <= e_uid e < 4611686018427387904)%Z ->
-  tar_atol (slice R_tar_uid_offset R_tar_uid_size h) = e_uid e.
+Hypothesis Hst : (ST_WARN <= fst (gnutar_header name lk un gn e t))%Z.
+Let facts : gnutar_ok_facts := gnutar_ok Hst.
+
+Theorem gnutar_ok_uid : tar_atol (slice R_tar_uid_offset R_tar_uid_size h) = e_uid e.
 Proof.
-  intros Hv.
-  pose proof (gnutar_fn_length (e_uid e) GNUTAR_uid_size GNUTAR_uid_max_size) as Hlen.
+  pose proof (gf_uid facts) as Hok.
+  pose proof (gnutar_fn_length_ok _ _ _ Hok) as Hlen.
   assert (Hw : forall k, length (snd (gnutar_format_number (e_uid e) GNUTAR_uid_size GNUTAR_uid_max_size)) + k = 8 ->
             slice GNUTAR_uid_offset (length (snd (gnutar_format_number (e_uid e) GNUTAR_uid_size GNUTAR_uid_max_size)) + k) h
             = snd (gnutar_format_number (e_uid e) GNUTAR_uid_size GNUTAR_uid_max_size)
@@ -1012,28 +1064,24 @@ Proof.
     - unfold_g. split_forall; try leafg.
     - rewrite gnutar_fields_shape. unfold_g. split_forall; try leafg.
     - leafg. }
-  destruct (e_uid e <? zpow 8 GNUTAR_uid_size)%Z eqn:E; try rewrite E in Hlen.
-  - change R_tar_uid_offset with GNUTAR_uid_offset.
-    replace R_tar_uid_size with (length (snd (gnutar_format_number (e_uid e) GNUTAR_uid_size GNUTAR_uid_max_size)) + 1)
+  change R_tar_uid_offset with GNUTAR_uid_offset.
+  destruct ((0 <=? e_uid e)%Z && (e_uid e <? zpow 8 GNUTAR_uid_size)%Z) eqn:E.
+  - replace R_tar_uid_size with (length (snd (gnutar_format_number (e_uid e) GNUTAR_uid_size GNUTAR_uid_max_size)) + 1)
       by (rewrite Hlen; reflexivity).
     rewrite Hw by (rewrite Hlen; reflexivity). rewrite Hlen.
     change (slice (GNUTAR_uid_offset + GNUTAR_uid_size) 1 gnutar_template) with [0%Z].
-    apply (gnutar_number_exact_8 (e_uid e) GNUTAR_uid_size [0%Z]); [unfold GNUTAR_uid_size; lia | assumption |].
-    rewrite E. apply stops_nul.
-  - change R_tar_uid_offset with GNUTAR_uid_offset.
-    replace R_tar_uid_size with (length (snd (gnutar_format_number (e_uid e) GNUTAR_uid_size GNUTAR_uid_max_size)) + 0)
+    apply (gnutar_number_ok_8 (e_uid e) GNUTAR_uid_size [0%Z]); [unfold GNUTAR_uid_size; lia | rewrite E; apply stops_nul | assumption].
+  - replace R_tar_uid_size with (length (snd (gnutar_format_number (e_uid e) GNUTAR_uid_size GNUTAR_uid_max_size)) + 0)
       by (rewrite Hlen; reflexivity).
     rewrite Hw by (rewrite Hlen; reflexivity). rewrite Hlen.
     change (slice (GNUTAR_uid_offset + GNUTAR_uid_max_size) 0 gnutar_template) with (@nil Z).
-    apply (gnutar_number_exact_8 (e_uid e) GNUTAR_uid_size []); [unfold GNUTAR_uid_size; lia | assumption |].
-    rewrite E. reflexivity.
+    apply (gnutar_number_ok_8 (e_uid e) GNUTAR_uid_size []); [unfold GNUTAR_uid_size; lia | rewrite E; reflexivity | assumption].
 Qed.
 
-Theorem gnutar_gid_exact : (0 <= e_gid e < 4611686018427387904)%Z ->
-  tar_atol (slice R_tar_gid_offset R_tar_gid_size h) = e_gid e.
+Theorem gnutar_ok_gid : tar_atol (slice R_tar_gid_offset R_tar_gid_size h) = e_gid e.
 Proof.
-  intros Hv.
-  pose proof (gnutar_fn_length (e_gid e) GNUTAR_gid_size GNUTAR_gid_max_size) as Hlen.
+  pose proof (gf_gid facts) as Hok.
+  pose proof (gnutar_fn_length_ok _ _ _ Hok) as Hlen.
   assert (Hw : forall k, length (snd (gnutar_format_number (e_gid e) GNUTAR_gid_size GNUTAR_gid_max_size)) + k = 8 ->
             slice GNUTAR_gid_offset (length (snd (gnutar_format_number (e_gid e) GNUTAR_gid_size GNUTAR_gid_max_size)) + k) h
             = snd (gnutar_format_number (e_gid e) GNUTAR_gid_size GNUTAR_gid_max_size)
@@ -1043,28 +1091,26 @@ Proof.
     - unfold_g. split_forall; try leafg.
     - rewrite gnutar_fields_shape. unfold_g. split_forall; try leafg.
     - leafg. }
-  destruct (e_gid e <? zpow 8 GNUTAR_gid_size)%Z eqn:E; try rewrite E in Hlen.
-  - change R_tar_gid_offset with GNUTAR_gid_offset.
-    replace R_tar_gid_size with (length (snd (gnutar_format_number (e_gid e) GNUTAR_gid_size GNUTAR_gid_max_size)) + 1)
+  change R_tar_gid_offset with GNUTAR_gid_offset.
+  destruct ((0 <=? e_gid e)%Z && (e_gid e <? zpow 8 GNUTAR_gid_size)%Z) eqn:E.
+  - replace R_tar_gid_size with (length (snd (gnutar_format_number (e_gid e) GNUTAR_gid_size GNUTAR_gid_max_size)) + 1)
       by (rewrite Hlen; reflexivity).
     rewrite Hw by (rewrite Hlen; reflexivity). rewrite Hlen.
     change (slice (GNUTAR_gid_offset + GNUTAR_gid_size) 1 gnutar_template) with [0%Z].
-    apply (gnutar_number_exact_8 (e_gid e) GNUTAR_gid_size [0%Z]); [unfold GNUTAR_gid_size; lia | assumption |].
-    rewrite E. apply stops_nul.
-  - change R_tar_gid_offset with GNUTAR_gid_offset.
-    replace R_tar_gid_size with (length (snd (gnutar_format_number (e_gid e) GNUTAR_gid_size GNUTAR_gid_max_size)) + 0)
+    apply (gnutar_number_ok_8 (e_gid e) GNUTAR_gid_size [0%Z]); [unfold GNUTAR_gid_size; lia | rewrite E; apply stops_nul | assumption].
+  - replace R_tar_gid_size with (length (snd (gnutar_format_number (e_gid e) GNUTAR_gid_size GNUTAR_gid_max_size)) + 0)
       by (rewrite Hlen; reflexivity).
     rewrite Hw by (rewrite Hlen; reflexivity). rewrite Hlen.
     change (slice (GNUTAR_gid_offset + GNUTAR_gid_max_size) 0 gnutar_template) with (@nil Z).
-    apply (gnutar_number_exact_8 (e_gid e) GNUTAR_gid_size []); [unfold GNUTAR_gid_size; lia | assumption |].
-    rewrite E. reflexivity.
+    apply (gnutar_number_ok_8 (e_gid e) GNUTAR_gid_size []); [unfold GNUTAR_gid_size; lia | rewrite E; reflexivity | assumption].
 Qed.
 
-Theorem gnutar_size_exact : (0 <= size_of e < two63)%Z ->
+Theorem gnutar_ok_size : (- two63 <= size_of e < two63)%Z ->
   tar_atol (slice R_tar_size_offset R_tar_size_size h) = size_of e.
 Proof.
   intros Hv.
-  pose proof (gnutar_fn_length (size_of e) GNUTAR_size_size GNUTAR_size_max_size) as Hlen.
+  pose proof (gf_size facts) as Hok.
+  pose proof (gnutar_fn_length_ok _ _ _ Hok) as Hlen.
   assert (Hw : forall k, length (snd (gnutar_format_number (size_of e) GNUTAR_size_size GNUTAR_size_max_size)) + k = 12 ->
             slice GNUTAR_size_offset (length (snd (gnutar_format_number (size_of e) GNUTAR_size_size GNUTAR_size_max_size)) + k) h
             = snd (gnutar_format_number (size_of e) GNUTAR_size_size GNUTAR_size_max_size)
@@ -1074,21 +1120,121 @@ Proof.
     - unfold_g. split_forall; try leafg.
     - rewrite gnutar_fields_shape. unfold_g. split_forall; try leafg.
     - leafg. }
-  destruct (size_of e <? zpow 8 GNUTAR_size_size)%Z eqn:E; try rewrite E in Hlen.
-  - change R_tar_size_offset with GNUTAR_size_offset.
-    replace R_tar_size_size with (length (snd (gnutar_format_number (size_of e) GNUTAR_size_size GNUTAR_size_max_size)) + 1)
+  change R_tar_size_offset with GNUTAR_size_offset.
+  destruct ((0 <=? size_of e)%Z && (size_of e <? zpow 8 GNUTAR_size_size)%Z) eqn:E.
+  - replace R_tar_size_size with (length (snd (gnutar_format_number (size_of e) GNUTAR_size_size GNUTAR_size_max_size)) + 1)
       by (rewrite Hlen; reflexivity).
     rewrite Hw by (rewrite Hlen; reflexivity). rewrite Hlen.
     change (slice (GNUTAR_size_offset + GNUTAR_size_size) 1 gnutar_template) with [0%Z].
-    apply (gnutar_number_exact_12 (size_of e) GNUTAR_size_size [0%Z]); [unfold GNUTAR_size_size; lia | assumption |].
-    rewrite E. apply stops_nul.
-  - change R_tar_size_offset with GNUTAR_size_offset.
-    replace R_tar_size_size with (length (snd (gnutar_format_number (size_of e) GNUTAR_size_size GNUTAR_size_max_size)) + 0)
+    apply (gnutar_number_ok_12 (size_of e) GNUTAR_size_size [0%Z]); [unfold GNUTAR_size_size; lia | assumption | rewrite E; apply stops_nul].
+  - replace R_tar_size_size with (length (snd (gnutar_format_number (size_of e) GNUTAR_size_size GNUTAR_size_max_size)) + 0)
       by (rewrite Hlen; reflexivity).
     rewrite Hw by (rewrite Hlen; reflexivity). rewrite Hlen.
     change (slice (GNUTAR_size_offset + GNUTAR_size_max_size) 0 gnutar_template) with (@nil Z).
-    apply (gnutar_number_exact_12 (size_of e) GNUTAR_size_size []); [unfold GNUTAR_size_size; lia | assumption |].
-    rewrite E. reflexivity.
+    apply (gnutar_number_ok_12 (size_of e) GNUTAR_size_size []); [unfold GNUTAR_size_size; lia | assumption | rewrite E; reflexivity].
+Qed.
+
+Theorem gnutar_ok_mtime : (- two63 <= e_mtime e < two63)%Z ->
+  tar_atol (slice R_tar_mtime_offset R_tar_mtime_size h) = e_mtime e.
+Proof.
+  intros Hv.
+  pose proof (gf_mtime facts) as Hok.
+  pose proof (gnutar_fn_length_ok _ _ _ Hok) as Hlen.
+  assert (Hw : forall k, length (snd (gnutar_format_number (e_mtime e) GNUTAR_mtime_size GNUTAR_mtime_max_size)) + k = 12 ->
+            slice GNUTAR_mtime_offset (length (snd (gnutar_format_number (e_mtime e) GNUTAR_mtime_size GNUTAR_mtime_max_size)) + k) h
+            = snd (gnutar_format_number (e_mtime e) GNUTAR_mtime_size GNUTAR_mtime_max_size)
+              ++ slice (GNUTAR_mtime_offset + length (snd (gnutar_format_number (e_mtime e) GNUTAR_mtime_size GNUTAR_mtime_max_size))) k gnutar_template).
+  { intros k Hk. apply (gnutar_window GNUTAR_mtime_offset (e_mtime e) GNUTAR_mtime_size GNUTAR_mtime_max_size (gnu_pre_num ++ [g_mode; g_uid; g_gid; g_size]) g_tail k).
+    - rewrite gnutar_fields_shape. rewrite <- app_assoc. reflexivity.
+    - unfold_g. split_forall; try leafg.
+    - rewrite gnutar_fields_shape. unfold_g. split_forall; try leafg.
+    - leafg. }
+  change R_tar_mtime_offset with GNUTAR_mtime_offset.
+  destruct ((0 <=? e_mtime e)%Z && (e_mtime e <? zpow 8 GNUTAR_mtime_size)%Z) eqn:E.
+  - replace R_tar_mtime_size with (length (snd (gnutar_format_number (e_mtime e) GNUTAR_mtime_size GNUTAR_mtime_max_size)) + 1)
+      by (rewrite Hlen; reflexivity).
+    rewrite Hw by (rewrite Hlen; reflexivity). rewrite Hlen.
+    change (slice (GNUTAR_mtime_offset + GNUTAR_mtime_size) 1 gnutar_template) with [0%Z].
+    apply (gnutar_number_ok_12 (e_mtime e) GNUTAR_mtime_size [0%Z]); [unfold GNUTAR_mtime_size; lia | assumption | rewrite E; apply stops_nul].
+  - replace R_tar_mtime_size with (length (snd (gnutar_format_number (e_mtime e) GNUTAR_mtime_size GNUTAR_mtime_max_size)) + 0)
+      by (rewrite Hlen; reflexivity).
+    rewrite Hw by (rewrite Hlen; reflexivity). rewrite Hlen.
+    change (slice (GNUTAR_mtime_offset + GNUTAR_mtime_max_size) 0 gnutar_template) with (@nil Z).
+    apply (gnutar_number_ok_12 (e_mtime e) GNUTAR_mtime_size []); [unfold GNUTAR_mtime_size; lia | assumption | rewrite E; reflexivity].
 Qed.
 
 End GnuOk.
+
+(* gnutar user / group names: status OK means they fit and come back from their zero-padded fields *)
+Lemma gnu_uname_region_zero : slice GNUTAR_uname_offset GNUTAR_uname_size gnutar_template = zeros GNUTAR_uname_size.
+Proof. reflexivity. Qed.
+Lemma gnu_gname_region_zero : slice GNUTAR_gname_offset GNUTAR_gname_size gnutar_template = zeros GNUTAR_gname_size.
+Proof. reflexivity. Qed.
+
+Section GnuNames.
+Variables name lk un gn : list Z.
+Variable e : entry.
+Variable t : Z.
+Hypothesis Hok : fst (gnutar_header name lk un gn e t) = 0%Z.
+
+Ltac unfold_g2 := unfold gnu_pre_num, g_tail, g_mode, g_uid, g_gid, g_size, g_mtime in *.
+
+Theorem gnutar_ok_uname : no_nul un ->
+  cstr (slice R_tar_uname_offset R_tar_uname_size (snd (gnutar_header name lk un gn e t))) = un.
+Proof.
+  intros Hnn. destruct (gnutar_ok_names name lk un gn e t Hok) as [Hlen _].
+  change R_tar_uname_offset with GNUTAR_uname_offset. change R_tar_uname_size with GNUTAR_uname_size.
+  unfold gnutar_header. cbn [snd].
+  destruct un as [|c r] eqn:Eu.
+  - rewrite (hdr_untouched _ _ _ GNUTAR_checksum_offset); [rewrite gnu_uname_region_zero; apply cstr_zeros | reflexivity
+      | apply gnutar_fields_inb | apply ck_ok_gnu | | leafg].
+    rewrite gnutar_fields_shape. unfold_g2. split_forall; try leafg.
+  - rewrite <- Eu in *.
+    replace GNUTAR_uname_size with (length un + (GNUTAR_uname_size - length un)) at 1 by lia.
+    rewrite (hdr_field_window _ _ _ GNUTAR_checksum_offset GNUTAR_uname_offset un (GNUTAR_uname_size - length un)
+               ([(GNUTAR_name_offset, firstn GNUTAR_name_size name)]
+                ++ wr_if (0 <? length lk) GNUTAR_linkname_offset (firstn GNUTAR_linkname_size lk))
+               (wr_if (0 <? length gn) GNUTAR_gname_offset (firstn GNUTAR_gname_size gn)
+                ++ [g_mode e; g_uid e; g_gid e; g_size e; g_mtime e] ++ g_tail e t)).
+    + rewrite (slice_of_zero_region _ _ _ _ _ gnu_uname_region_zero) by (unfold GNUTAR_uname_offset; lia).
+      apply cstr_app_zeros. assumption.
+    + reflexivity.
+    + apply gnutar_fields_inb.
+    + apply ck_ok_gnu.
+    + rewrite gnutar_fields_shape. unfold gnu_pre_num. rewrite (wr_if_nonempty un); [| first [discriminate | rewrite Eu; discriminate] | assumption].
+      repeat rewrite <- app_assoc. reflexivity.
+    + unfold_g2. split_forall; try leafg.
+    + rewrite gnutar_fields_shape. unfold_g2. split_forall; try leafg.
+    + leafg.
+Qed.
+
+Theorem gnutar_ok_gname : no_nul gn ->
+  cstr (slice R_tar_gname_offset R_tar_gname_size (snd (gnutar_header name lk un gn e t))) = gn.
+Proof.
+  intros Hnn. destruct (gnutar_ok_names name lk un gn e t Hok) as [_ Hlen].
+  change R_tar_gname_offset with GNUTAR_gname_offset. change R_tar_gname_size with GNUTAR_gname_size.
+  unfold gnutar_header. cbn [snd].
+  destruct gn as [|c r] eqn:Eg.
+  - rewrite (hdr_untouched _ _ _ GNUTAR_checksum_offset); [rewrite gnu_gname_region_zero; apply cstr_zeros | reflexivity
+      | apply gnutar_fields_inb | apply ck_ok_gnu | | leafg].
+    rewrite gnutar_fields_shape. unfold_g2. split_forall; try leafg.
+  - rewrite <- Eg in *.
+    replace GNUTAR_gname_size with (length gn + (GNUTAR_gname_size - length gn)) at 1 by lia.
+    rewrite (hdr_field_window _ _ _ GNUTAR_checksum_offset GNUTAR_gname_offset gn (GNUTAR_gname_size - length gn)
+               ([(GNUTAR_name_offset, firstn GNUTAR_name_size name)]
+                ++ wr_if (0 <? length lk) GNUTAR_linkname_offset (firstn GNUTAR_linkname_size lk)
+                ++ wr_if (0 <? length un) GNUTAR_uname_offset (firstn GNUTAR_uname_size un))
+               ([g_mode e; g_uid e; g_gid e; g_size e; g_mtime e] ++ g_tail e t)).
+    + rewrite (slice_of_zero_region _ _ _ _ _ gnu_gname_region_zero) by (unfold GNUTAR_gname_offset; lia).
+      apply cstr_app_zeros. assumption.
+    + reflexivity.
+    + apply gnutar_fields_inb.
+    + apply ck_ok_gnu.
+    + rewrite gnutar_fields_shape. unfold gnu_pre_num. rewrite (wr_if_nonempty gn); [| first [discriminate | rewrite Eg; discriminate] | assumption].
+      repeat rewrite <- app_assoc. reflexivity.
+    + unfold_g2. split_forall; try leafg.
+    + rewrite gnutar_fields_shape. unfold_g2. split_forall; try leafg.
+    + leafg.
+Qed.
+
+End GnuNames.
